@@ -35,6 +35,12 @@ type DocPeer struct {
 	Timeout time.Duration `dials:"dial_timeout"`
 	Since   time.Time     `dials:"since"` // a text-unmarshaling struct by value inside a slice element
 	dialed  int           // an unexported field (bookkeeping of the application) inside a slice element
+	Retry   *DocRetry     `dials:"retry"` // a pointer-to-struct section inside a slice element: each element has its own
+}
+
+type DocRetry struct {
+	Count   int           `dials:"count"`
+	Backoff time.Duration `dials:"backoff"`
 }
 
 var _ = DocPeer{}.dialed
@@ -152,10 +158,12 @@ type DocVal struct {
 }
 
 type PeerVal struct {
-	Addr      *string `json:"addr,omitempty"`
-	Weight    *int    `json:"weight,omitempty"`
-	TimeoutNS *int64  `json:"timeout_ns,omitempty"`
-	Since     *string `json:"since,omitempty"`
+	Addr           *string `json:"addr,omitempty"`
+	Weight         *int    `json:"weight,omitempty"`
+	TimeoutNS      *int64  `json:"timeout_ns,omitempty"`
+	Since          *string `json:"since,omitempty"`
+	RetryCount     *int    `json:"retry_count,omitempty"`
+	RetryBackoffNS *int64  `json:"retry_backoff_ns,omitempty"`
 }
 
 type StreamSpec struct {
@@ -308,6 +316,14 @@ func (g *gen) docVal(p int) DocVal {
 			}
 			if g.pct(40) {
 				pv.Since = sp(fmt.Sprintf("2020-01-%02dT02:03:04Z", 1+(n+i)%27))
+			}
+			if g.pct(45) {
+				if g.pct(75) {
+					pv.RetryCount = ip(n*5 + i + 1)
+				}
+				if pv.RetryCount == nil || g.pct(60) {
+					pv.RetryBackoffNS = i64p(int64(n*7+i+1) * int64(time.Millisecond) * 10)
+				}
 			}
 			if pv.Addr == nil && pv.Weight == nil && pv.TimeoutNS == nil && pv.Since == nil {
 				pv.Weight = ip(i)
@@ -476,6 +492,15 @@ func (v *DocVal) expected(def *DocVal) *CfgDoc {
 				if pv.Since != nil {
 					p.Since, _ = time.Parse(time.RFC3339, *pv.Since)
 				}
+				if pv.RetryCount != nil || pv.RetryBackoffNS != nil {
+					p.Retry = &DocRetry{}
+					if pv.RetryCount != nil {
+						p.Retry.Count = *pv.RetryCount
+					}
+					if pv.RetryBackoffNS != nil {
+						p.Retry.Backoff = time.Duration(*pv.RetryBackoffNS)
+					}
+				}
 				c.Peers = append(c.Peers, p)
 			}
 		}
@@ -624,6 +649,23 @@ func (v *DocVal) peerFields(format string) [][]kv {
 			} else {
 				l = append(l, kv{"since", strconv.Quote(*pv.Since)})
 			}
+		}
+		if pv.RetryCount != nil || pv.RetryBackoffNS != nil {
+			var parts []string
+			q, eq := func(k string) string { return k }, ": "
+			switch format {
+			case "json":
+				q = strconv.Quote
+			case "toml":
+				eq = " = "
+			}
+			if pv.RetryCount != nil {
+				parts = append(parts, q("count")+eq+strconv.Itoa(*pv.RetryCount))
+			}
+			if pv.RetryBackoffNS != nil {
+				parts = append(parts, q("backoff")+eq+strconv.Quote(time.Duration(*pv.RetryBackoffNS).String()))
+			}
+			l = append(l, kv{"retry", "{" + strings.Join(parts, ", ") + "}"})
 		}
 		out = append(out, l)
 	}
